@@ -271,6 +271,11 @@ def derived(ctx, db, B, r, n):
         if got_c != want_c:
             ctx.violation("derived:composing-map-is-not-the-one-the-request-names", dict(case, requested=want_c, got=got_c), replay=case)
             continue
+        if how not in ("CreateDerived", "ObtainQuantity(dict)", "ObtainQuantity(list)"):
+            left = cancelled_leftovers(q)
+            if left:
+                ctx.violation("derived:categories-left-on-a-unit-whose-exponents-cancel", dict(case, leftovers=left, unit=q.GetUnit(), category=q.GetCategory()), replay=case)
+                continue
         s = check_quantity(ctx, db, q, case, "derived")
         m = q.GetCategoryToUnitAndExps()
         ctx.nt(("derived", tuple(sorted((u, e) for _c, (u, e) in m.items()))))
@@ -293,6 +298,56 @@ def derived(ctx, db, B, r, n):
                 ctx.violation("derived:repr-or-str-does-not-show-the-unit", dict(case, unit=u, repr=shown[0][:160], str=shown[1][:160]), replay=case)
             if o.GetCategory() != s["category"] or o.GetQuantityType() != s["quantity_type"] or o.GetUnitName() != s["unit_name"]:
                 ctx.violation("derived:value-object-strings-differ-from-its-quantity", dict(case, object=[o.GetCategory(), o.GetQuantityType(), o.GetUnitName()], quantity=s), replay=case)
+
+
+def cancelled_leftovers(q):
+    """categories that a quantity *built by arithmetic* still lists although the exponents of their unit add up to zero
+    (m * m / m / m is no unit at all: nothing of it is rendered - "zero exponents absent" - and nothing of it is kept)"""
+    total = Counter()
+    for c, (u, e) in q.GetCategoryToUnitAndExps().items():
+        total[u] += e
+    return sorted(c for c, (u, e) in q.GetCategoryToUnitAndExps().items() if total[u] == 0)
+
+
+def cross_category_cancellations(ctx, db, B):
+    """Two categories of one quantity type in one unit (depth and length in m), multiplied and divided until the unit cancels -
+    alone, and beside a factor of another type that stays: Scalars, Quantities and Arrays, every order of the divisions."""
+    import itertools
+
+    from barril.units import Array, ObtainQuantity, Scalar
+
+    qts = [qt for qt, (us, cats) in B.items() if len(cats) >= 2]
+    other = {qt: next(t for t in B if t != qt) for qt in qts}
+    n = 0
+    for qt in qts[:: max(1, len(qts) // 12)]:
+        us, cats = B[qt]
+        d, l, u = cats[0], cats[1], us[0]
+        tq = other[qt]
+        tc, tu = B[tq][1][0], B[tq][0][0]
+        for how, mk in (("Scalar", lambda c_, u_: Scalar(c_, 2.0, u_)), ("Quantity", lambda c_, u_: ObtainQuantity(u_, c_)), ("Array", lambda c_, u_: Array(c_, [2.0, 4.0], u_))):
+            D, L, T = mk(d, u), mk(l, u), mk(tc, tu)
+            exprs = (
+                ("((d*d)/l)/d", lambda: ((D * D) / L) / D), ("((d*d*t)/l)/d", lambda: ((D * D * T) / L) / D), ("((l*l)/d)/l", lambda: ((L * L) / D) / L), ("((d*l)/d)/l", lambda: ((D * L) / D) / L),
+                ("(((d*d)/l)/d)*t", lambda: (((D * D) / L) / D) * T), ("((d*d)/l)/d/d", lambda: ((D * D) / L) / D / D), ("((t*d*d)/l)/d/t", lambda: ((T * D * D) / L) / D / T), ("(d/l)*l/d", lambda: (D / L) * L / D),
+                ("((d*d*d)/l/l)/d", lambda: ((D * D * D) / L / L) / D),
+            )  # fmt: skip
+            for name, fn in exprs:
+                ctx.ev()
+                n += 1
+                case = {"quantity_type": qt, "categories": [d, l], "unit": u, "other_factor": [tc, tu], "expression": name, "route": how}
+                try:
+                    o = fn()
+                except Exception as e:
+                    ctx.count("cross-category expression raised %s" % type(e).__name__)
+                    continue
+                q = o if not hasattr(o, "GetQuantity") else o.GetQuantity()
+                ctx.nt(("cross-category", qt, how, name))
+                left = cancelled_leftovers(q)
+                if left:
+                    ctx.violation("derived:categories-left-on-a-unit-whose-exponents-cancel", dict(case, leftovers=left, unit=q.GetUnit(), category=q.GetCategory()), replay=case)
+                    continue
+                check_quantity(ctx, db, q, case, "derived")
+    ctx.count("cross-category cancellation expressions", n)
 
 
 def simple(ctx, db):
@@ -374,6 +429,8 @@ def run(ctx):
         ctx.notes["basis"] = {"quantity_types": str(len(B)), "atomic_units": str(sum(len(v[0]) for v in B.values()))}
         derived(ctx, db, B, ctx.rng("derived"), 5000 if quick else 60000)
         simple(ctx, db)
+        if ctx.shard == 1 % ctx.nshards:
+            cross_category_cancellations(ctx, db, B)
         if ctx.shard == 0:
             from barril.units import Scalar
 
@@ -394,5 +451,7 @@ def replay(ctx, d):
                 o = build(random.Random(0), [tuple(f) for f in d["factors"]], d["route"])
                 q = o if not hasattr(o, "GetQuantity") else o.GetQuantity()
                 check_quantity(ctx, db, q, d, "derived")
+        elif d and "expression" in d:
+            cross_category_cancellations(ctx, db, basis(db))
         else:
             simple(ctx, db)
